@@ -19,6 +19,9 @@ type Emit struct {
 	In     ssa.Value
 	Out    ssa.Value
 	Instr  ssa.Instruction
+	// LenOf is set when the emitted integer is the length of this value (an expanded string helper): consumers treat
+	// Srcs[0] as len(LenOf)
+	LenOf ssa.Value
 }
 
 type emitInfo struct {
@@ -100,6 +103,17 @@ func analyseEmits(fn *ssa.Function) *emitInfo {
 						}
 					}
 					if in0 == nil {
+						continue
+					}
+					// a helper that writes one string (4-byte length, then the bytes) is expanded into those two events
+					if f := x.Call.StaticCallee(); f != nil && len(x.Call.Args) == 2 && x.Call.Args[0] == in0 && strEmitHelper(f) {
+						e1 := &Emit{Kind: "uint", N: 4, Srcs: []ssa.Value{x.Call.Args[1]}, LenOf: x.Call.Args[1], Call: x, In: in0, Out: x, Instr: x, Callee: f}
+						e2 := &Emit{Kind: "payload", N: -1, Srcs: []ssa.Value{x.Call.Args[1]}, Call: x, In: in0, Out: x, Instr: x, Callee: f}
+						done[in] = true
+						changed = true
+						ei.events = append(ei.events, e1, e2)
+						ei.byOut[x] = e2
+						ei.chain[x] = true
 						continue
 					}
 					e := classifyEmit(x, in0)
@@ -461,4 +475,53 @@ func isBoolEmitHelper(f *ssa.Function) bool {
 		boolHelperMemo[f] = 1
 	}
 	return good
+}
+
+var strEmitMemo = map[*ssa.Function]bool{}
+
+// strEmitHelper: f(b []byte, s string) []byte appends uint32(len(s)) and then s, and nothing else.
+func strEmitHelper(f *ssa.Function) bool {
+	if v, ok := strEmitMemo[f]; ok {
+		return v
+	}
+	strEmitMemo[f] = false
+	if f.Blocks == nil || len(f.Blocks) != 1 || len(f.Params) != 2 || fnPkgPath(f) != pkgReflect || !isByteSlice(f.Params[0].Type()) || f.Params[1].Type().String() != "string" {
+		return false
+	}
+	r := f.Signature.Results()
+	if r.Len() != 1 || !isByteSlice(r.At(0).Type()) {
+		return false
+	}
+	ei := analyseEmits(f)
+	if len(ei.events) != 2 || len(ei.foreign) != 0 {
+		return false
+	}
+	e1, e2 := ei.events[0], ei.events[1]
+	if e1.Kind != "uint" || e1.N != 4 || e2.Kind != "payload" || e2.Srcs[0] != ssa.Value(f.Params[1]) {
+		return false
+	}
+	src := e1.Srcs[0]
+	viaLen := false
+	for {
+		if cv, ok := src.(*ssa.Convert); ok {
+			src = cv.X
+			continue
+		}
+		if call, ok := src.(*ssa.Call); ok && isBuiltin(call, "len") {
+			src = call.Call.Args[0]
+			viaLen = true
+			continue
+		}
+		break
+	}
+	if !viaLen || src != ssa.Value(f.Params[1]) {
+		return false
+	}
+	// the result is the end of the chain
+	ret, ok := f.Blocks[0].Instrs[len(f.Blocks[0].Instrs)-1].(*ssa.Return)
+	if !ok || len(ret.Results) != 1 || ret.Results[0] != e2.Out {
+		return false
+	}
+	strEmitMemo[f] = true
+	return true
 }
